@@ -517,3 +517,11 @@ M("C15", "generator created in the constructor and kept in the PCAs", XBASE, "",
 M("C14", "memoised conjugate transpose of the PCA basis", "xeofs/preprocessing/pca.py", "", "", "HIST.cache", edits=[("import numpy as np\n", "from functools import cached_property\n\nimport numpy as np\n"), ("    def fit(\n        self,\n        X: DataArray,\n        sample_dims: Dims | None = None,", "    @cached_property\n    def _Vh(self):\n        return self.V.conj().T\n\n    def fit(\n        self,\n        X: DataArray,\n        sample_dims: Dims | None = None,")])
 M("C13", "post-compute hook moved into deserialisation", "xeofs/base_model.py", "            setattr(self, str(key), deserialized_obj)\n", "            setattr(self, str(key), deserialized_obj)\n        self._post_compute()\n", "SERIAL.pure")
 M("C07", "rotated loadings mapped whitener-then-pca", ROTX, "        Qx_rot = self.pca1.transform_components(Qx_rot)\n        Qy_rot = self.pca2.transform_components(Qy_rot)\n        Qx_rot = self.whitener1.transform_components(Qx_rot)\n        Qy_rot = self.whitener2.transform_components(Qy_rot)\n", "        Qx_rot = self.whitener1.transform_components(Qx_rot)\n        Qy_rot = self.whitener2.transform_components(Qy_rot)\n        Qx_rot = self.pca1.transform_components(Qx_rot)\n        Qy_rot = self.pca2.transform_components(Qy_rot)\n", "LAYOUT.stage_order")
+
+# ---------------------------------------------------------------- round 7
+M("C17", "cross inverse selects field 2 by the labels of field 1", CP, '            comps2 = self.data["components2"].sel(mode=Y.mode)\n', '            comps2 = self.data["components2"].sel(mode=X.mode)\n', "GUARD.modes.select")
+M("C17", "single inverse contracts without selecting the modes", EOFPY, '        comps = self.data["components"].sel(mode=scores.mode)\n\n        reconstructed_data = xr.dot(comps.conj(), scores, dims="mode")\n        reconstructed_data.name = "reconstructed_data"\n\n        return reconstructed_data\n\n    def components(self, normalized: bool = True)', '        comps = self.data["components"]\n\n        reconstructed_data = xr.dot(comps.conj(), scores, dims="mode")\n        reconstructed_data.name = "reconstructed_data"\n\n        return reconstructed_data\n\n    def components(self, normalized: bool = True)', "GUARD.modes.select")
+B("C17", "mode labels through a local", EOFPY, '        comps = self.data["components"].sel(mode=scores.mode)\n\n        reconstructed_data = xr.dot(comps.conj(), scores, dims="mode")\n        reconstructed_data.name = "reconstructed_data"\n\n        return reconstructed_data\n\n    def components(self, normalized: bool = True)', '        wanted = scores.coords["mode"]\n        comps = self.data["components"].sel({"mode": wanted})\n\n        reconstructed_data = xr.dot(comps.conj(), scores, dims="mode")\n        reconstructed_data.name = "reconstructed_data"\n\n        return reconstructed_data\n\n    def components(self, normalized: bool = True)')
+M("C20", "member model follows the model's centring", BOOT, "                n_modes=n_modes,\n                standardize=False,\n", '                n_modes=n_modes,\n                center=model_params["center"],\n                standardize=False,\n', "MEMBER.config")
+M("C20", "member model standardises the resample", BOOT, "                n_modes=n_modes,\n                standardize=False,\n", "                n_modes=n_modes,\n                standardize=True,\n", "MEMBER.config")
+B("C20", "member model centres explicitly", BOOT, "                n_modes=n_modes,\n                standardize=False,\n", "                n_modes=n_modes,\n                center=True,\n                standardize=False,\n")
